@@ -28,3 +28,4 @@ package otlptracehttp
 //@   assert@call bodyReader#1 : $arg0 === body
 //@   ghost@call bodyReader#* : brCalls = brCalls + 1
 //@   assert@store bodyReader#* : brCalls == 1
+//@   loop#1 invariant brCalls == 0
